@@ -3,9 +3,10 @@
 Real OS threads under cooperative baton passing: a worker runs only while it holds the baton and hands
 it back to the scheduler (the thread that called Execution.run) at every *scheduling point*:
 
-  * `line` events delivered by sys.settrace inside a FIXED list of Pony code objects (PointSet), with an
-    optional per-code-object filter of line numbers;
-  * every driver call of a VfConnection (dbapi.ENV.handler);
+  * `line` events delivered by sys.settrace inside a FIXED list of Pony code objects (PointSet), with a
+    per-code-object set of line numbers;
+  * statement-level driver calls of a VfConnection (execute / executemany / commit / rollback, through
+    dbapi.ENV.handler);
   * acquire of the SQLite provider's transaction locks (SchedLock: a thread that finds the lock held is
     *disabled* until release; "no enabled thread and not all done" is a deadlock).
 
@@ -19,36 +20,58 @@ parent saw: a divergence is a HarnessError, never a violation.
 Granularity limit: a thread switch can be forced only *between* source lines of the listed functions
 (and at driver calls); races inside one source line are not explored.
 """
-import sys, threading, heapq, hashlib
+import sys, threading, heapq, hashlib, _thread
 from vf import core
 from vf.seams import dbapi
 
-HANG_SECONDS = 60
+HANG_SECONDS = 120
+DRIVER_POINTS = ('execute', 'executemany', 'commit', 'rollback')
+
+def _sem():
+    l = _thread.allocate_lock(); l.acquire()
+    return l            # binary semaphore: release() = V, acquire() = P (one outstanding V at most)
 
 class PointSet(object):
-    """code object -> (short name, frozenset of line numbers or None for 'every line')."""
+    """code object -> (short name, frozenset of line numbers, first line)."""
     def __init__(self):
         self.codes = {}
-    def add(self, name, func, line_filter=None):
-        """func: python function; line_filter(text) -> bool selects the source lines that are
-        scheduling points (None: every line). Fails loudly if nothing is selected."""
-        import inspect
+        self.described = {}
+    def add(self, name, func, shared_names=None, whole=False, keep_loops=False):
+        """Scheduling points of `func`:
+        whole=False  only the lines whose text mentions one of `shared_names` (cache get / store lines);
+        whole=True   every line, except lines inside a for/while body that do not mention a shared name
+                     (iterations over thread-local data; the loop header itself stays a point).
+        Fails loudly when the function is missing or nothing is selected."""
+        import inspect, ast, textwrap
         func = inspect.unwrap(func)
         code = getattr(func, '__code__', None)
         if code is None: raise core.HarnessError('C22: %s has no code object' % name)
-        lines = None
-        if line_filter is not None:
-            src, first = inspect.getsourcelines(code)
-            lines = frozenset(first + i for i, text in enumerate(src) if line_filter(text))
-            if not lines: raise core.HarnessError('C22: no cache line found in %s' % name)
-        self.codes[code] = (name, lines, code.co_firstlineno)
+        src, first = inspect.getsourcelines(code)
+        mentions = set(first + i for i, text in enumerate(src) if any(s in text for s in (shared_names or ())))
+        if shared_names and not mentions:
+            raise core.HarnessError('C22: no line of %s mentions %r - update the point list' % (name, shared_names))
+        if not whole:
+            lines = mentions
+        else:
+            tree = ast.parse(textwrap.dedent(''.join(src)))
+            in_loop = set()
+            for node in ast.walk(tree):
+                if isinstance(node, (ast.For, ast.While)):
+                    for stmt in node.body + node.orelse:
+                        for sub in ast.walk(stmt):
+                            if hasattr(sub, 'lineno'):
+                                in_loop.update(range(sub.lineno + first - 1, getattr(sub, 'end_lineno', sub.lineno) + first))
+            lines = set(range(first, first + len(src))) - (set() if keep_loops else in_loop - mentions)
+        if not lines: raise core.HarnessError('C22: no scheduling point in %s' % name)
+        self.codes[code] = (name, frozenset(lines), code.co_firstlineno)
+        self.described[name] = dict(whole=whole, loops=keep_loops, shared=list(shared_names or ()), candidate_lines=len(lines))
         return self
 
 class SchedLock(object):
     """Drop-in for threading.Lock on provider.transaction_lock / pre_transaction_lock."""
     def __init__(self, name):
         self.name, self.owner, self.ex = name, None, None
-        self._real = threading.Lock()       # used when no execution is active (set-up, matrix)
+        self._real = threading.Lock()       # used when no execution is active (set-up, preludes, matrix)
     def acquire(self, blocking=True, timeout=-1):
         ex = self.ex
         me = ex.me() if ex is not None else None
@@ -76,24 +99,24 @@ class Execution(object):
     def __init__(self, bodies, choices, pointset, locks=(), finalizer=None):
         self.bodies, self.choices, self.ps = bodies, list(choices), pointset
         self.n = len(bodies)
-        self.sems = [threading.Semaphore(0) for _ in bodies]
-        self.main = threading.Semaphore(0)
+        self.sems = [_sem() for _ in bodies]
+        self.main = _sem()
         self.done = [False] * self.n
         self.waiting = [None] * self.n
         self.results = [None] * self.n
         self.errors = [None] * self.n
-        self.trace = []            # (thread, label)      one entry per point reached
-        self.decisions = []        # (enabled tuple, chosen index, was_preemption)
+        self.trace = []            # (thread, label): entry k is what happened after decision k
+        self.decisions = []        # (enabled tuple, chosen index, was_preemption, could_continue)
         self.idents = {}
         self.locks = locks
         self.finalizer = finalizer
-        self.switch_in = {}        # function name -> number of switches away from a thread standing in it
+        self.switch_in = {}        # function name -> switches away from a live thread standing inside it
         self.cur = None
         self.status = None
 
     # ---- worker side ------------------------------------------------------------------------
     def me(self):
-        return self.idents.get(threading.get_ident())
+        return self.idents.get(_thread.get_ident())
     def point(self, i, label):
         self.trace.append((i, label))
         self.main.release()
@@ -105,32 +128,32 @@ class Execution(object):
             if event == 'line':
                 name, lines, first = codes[frame.f_code]
                 ln = frame.f_lineno
-                if lines is None or ln in lines:
-                    point(i, '%s+%d' % (name, ln - first))
+                if ln in lines: point(i, '%s+%d' % (name, ln - first))
             return local
         def glob(frame, event, arg):
             if frame.f_code in codes: return local
             return None
         return glob
     def _worker(self, i):
-        self.idents[threading.get_ident()] = i
+        self.idents[_thread.get_ident()] = i
         self.sems[i].acquire()
         try:
             sys.settrace(self._tracer_for(i))
             try: self.results[i] = self.bodies[i](i)
             finally: sys.settrace(None)
-        except BaseException as e:                    # a body must catch what Pony raises itself
+        except BaseException as e:                    # a body catches what Pony raises by itself
             self.errors[i] = '%s: %s' % (type(e).__name__, e)
         try:
             if self.finalizer is not None: self.finalizer(i)
         except BaseException as e:
             self.errors[i] = (self.errors[i] or '') + ' finalizer %s: %s' % (type(e).__name__, e)
         self.done[i] = True
+        self.trace.append((i, 'done'))
         self.main.release()
     def _on_call(self, kind, sql, args, con):
-        i = self.me()
-        if i is not None and not self.done[i]:
-            self.point(i, 'db:' + kind)
+        if kind in DRIVER_POINTS:
+            i = self.me()
+            if i is not None: self.point(i, 'db:' + kind)
 
     # ---- scheduler side -----------------------------------------------------------------------
     def _ready(self, t):
@@ -143,100 +166,94 @@ class Execution(object):
         dbapi.ENV.handler = self._on_call
         threads = [threading.Thread(target=self._worker, args=(i,), daemon=True) for i in range(self.n)]
         for t in threads: t.start()
-        pos = 0
+        pos, nchoices, rng = 0, len(self.choices), range(self.n)
         try:
             while True:
-                enabled = [t for t in range(self.n) if self._ready(t)]
+                enabled = [t for t in rng if self._ready(t)]
                 if not enabled:
                     self.status = 'ok' if all(self.done) else 'deadlock'
                     break
                 cur = self.cur
                 can_continue = cur in enabled
-                if can_continue:
+                if can_continue and enabled[0] != cur:
                     enabled.remove(cur); enabled.insert(0, cur)
-                if pos < len(self.choices):
+                if pos < nchoices:
                     c = self.choices[pos]
                     if c >= len(enabled):
-                        raise core.HarnessError('C22 schedule replay diverged: choice %d of %r at point %d' % (c, enabled, pos))
+                        raise core.HarnessError('C22 schedule replay diverged: choice %d of %r at decision %d' % (c, enabled, pos))
                 else: c = 0
-                pre = bool(can_continue and c != 0)
-                self.decisions.append((tuple(enabled), c, pre))
-                if cur is not None and enabled[c] != cur and self.trace and self.trace[-1][0] == cur:
+                self.decisions.append((tuple(enabled), c, can_continue and c != 0, can_continue))
+                nxt = enabled[c]
+                if cur is not None and nxt != cur and not self.done[cur]:
                     lab = self.trace[-1][1]
-                    if not lab.startswith(('db:', 'lock:', 'blocked:')) and not self.done[cur]:
+                    if '+' in lab:
                         fn = lab.split('+')[0]
                         self.switch_in[fn] = self.switch_in.get(fn, 0) + 1
                 pos += 1
-                self.cur = enabled[c]
-                self.sems[self.cur].release()
-                if not self.main.acquire(timeout=HANG_SECONDS):
+                self.cur = nxt
+                self.sems[nxt].release()
+                if not self.main.acquire(True, HANG_SECONDS):
                     raise core.HarnessError('C22: thread %d did not come back to the scheduler within %ds '
                                             '(blocked outside a scheduling point?) trace tail %r'
-                                            % (self.cur, HANG_SECONDS, self.trace[-5:]))
+                                            % (nxt, HANG_SECONDS, self.trace[-5:]))
         finally:
             dbapi.ENV.handler = old_handler
             for l in self.locks: l.ex = None
-        for t in threads: t.join(HANG_SECONDS)
-        if any(t.is_alive() for t in threads): raise core.HarnessError('C22: worker thread did not finish')
+        if self.status == 'ok':
+            for t in threads: t.join(HANG_SECONDS)
+            if any(t.is_alive() for t in threads): raise core.HarnessError('C22: worker thread did not finish')
         return self
     # ---- derived --------------------------------------------------------------------------------
     def taken(self):
-        return [c for (_, c, _) in self.decisions]
+        return [d[1] for d in self.decisions]
     def preemptions(self):
         return sum(1 for d in self.decisions if d[2])
     def fingerprint(self, upto=None):
-        """hash of (labels, enabled sets) of the first `upto` decisions"""
+        """hash of the enabled sets of the first `upto` decisions and of everything that happened
+        between them (trace entry k follows decision k)"""
         n = len(self.decisions) if upto is None else upto
         h = hashlib.sha1()
-        # decision k is taken after trace entry k-1 was appended (decision 0 before any point)
         h.update(repr((self.trace[:max(0, n - 1)], [d[0] for d in self.decisions[:n]])).encode())
         return h.hexdigest()[:16]
-    def switches(self):
-        """number of decisions that changed the running thread while the previous one was not done"""
-        return sum(self.switch_in.values())
+    def thread_labels(self, i):
+        return [l for (t, l) in self.trace if t == i]
 
 class Explorer(object):
     """Stateless search over choice lists with iterative preemption bounding."""
     def __init__(self, make_execution, bound, max_executions=None):
         self.make, self.bound, self.max = make_execution, bound, max_executions
         self.executions = 0
-        self.transitions = 0
+        self.edges = 0                 # distinct edges of the schedule tree that were executed
         self.by_preemptions = {}
         self.capped = False
     def run(self, visit, roots=None):
         """visit(execution) is called for every completed execution. roots: optional list of initial
-        choice prefixes (used to partition the tree between processes)."""
+        choice prefixes (partition of the tree between processes)."""
         heap, seq = [], 0
         for r in (roots if roots is not None else [[]]):
             heap.append((0, seq, list(r), None, 0)); seq += 1
         heapq.heapify(heap)
         while heap:
-            pre0, _, prefix, fp, fplen = heapq.heappop(heap)
+            cost0, _, prefix, fp, fplen = heapq.heappop(heap)
             if self.max is not None and self.executions >= self.max:
                 self.capped = True
                 break
             ex = self.make(prefix).run()
             self.executions += 1
-            self.transitions += len(ex.decisions)
             if fp is not None and ex.fingerprint(fplen) != fp:
                 raise core.HarnessError('C22: replaying prefix %r diverged from the execution that scheduled it' % (prefix,))
+            self.edges += len(ex.decisions) - (len(prefix) - 1 if fp is not None else 0)
             npre = ex.preemptions()
             self.by_preemptions[npre] = self.by_preemptions.get(npre, 0) + 1
             visit(ex)
             taken = ex.taken()
             used = 0
-            for k, (enabled, c, pre) in enumerate(ex.decisions):
-                if k >= len(prefix):
-                    can_continue = (k > 0 and enabled and self._continues(ex, k))
-                    for alt in range(1, len(enabled)):
-                        cost = used + (1 if can_continue else 0)
-                        if cost <= self.bound:
-                            heapq.heappush(heap, (cost, seq, taken[:k] + [alt], ex.fingerprint(k + 1), k + 1)); seq += 1
+            for k, (enabled, c, pre, can_continue) in enumerate(ex.decisions):
+                if k >= len(prefix) and len(enabled) > 1:
+                    cost = used + (1 if can_continue else 0)
+                    if cost <= self.bound:
+                        fpk = ex.fingerprint(k + 1)
+                        for alt in range(1, len(enabled)):
+                            heapq.heappush(heap, (cost, seq, taken[:k] + [alt], fpk, k + 1)); seq += 1
                 if pre: used += 1
         return self
-    @staticmethod
-    def _continues(ex, k):
-        """was the thread running before decision k still enabled (so that alt != 0 is a preemption)?"""
-        enabled = ex.decisions[k][0]
-        prev = ex.decisions[k - 1]
-        return enabled[0] == prev[0][prev[1]]
